@@ -71,6 +71,9 @@ pub fn universe(ctx: &mut Ctx, sz: &Sizes, ud: bool) -> Vec<Term> {
     for (f, a) in deep_substitution_family().into_iter().step_by(7) {
         v.push(app(f, a));
     }
+    for (f, a) in very_deep_substitution_family(257).into_iter().skip(2).step_by(4) {
+        v.push(app(f, a));
+    }
     let mut e = enum_upto(sz.enum_size, sz.enum_free);
     if !ud {
         e.retain(|t| !free_vars(t).1);
@@ -271,8 +274,103 @@ fn spoil_supercombinator(r: &mut Rng, t: &Term) -> Term {
     go(r, t, 0, false, &mut done)
 }
 
+/// pairs of DIFFERENT terms whose `Debug` strings coincide: indices are printed as hexadecimal digits without separators, so the
+/// application `2 1` and the single variable `Var(0x21)` both print as "21".  Anything that identifies a term by its printed form
+/// (a cache, a memo table) confuses them
+pub fn debug_lookalikes() -> Vec<(Term, Term)> {
+    vec![
+        (abs!(2, app(Var(2), Var(1))), abs!(2, Var(0x21))),                                   // λλ21
+        (app!(Var(2), Var(1), Var(3)), Var(0x213)),                                           // 213
+        (app!(Var(2), Var(1), Var(3)), app(Var(0x21), Var(3))),                               // 213
+        (app(abs(app(Var(1), Var(2))), Var(3)), app(abs(Var(0x12)), Var(3))),                 // (λ12)3
+        (app(abs!(2, app(Var(2), Var(1))), abs(Var(1))), app(abs!(2, Var(0x21)), abs(Var(1)))), // (λλ21)(λ1)
+        (abs(app(abs(app(Var(1), Var(1))), app(Var(1), Var(2)))), abs(app(abs(Var(0x11)), Var(0x12)))), // λ(λ11)(12) / λ(λ11)12 differ; kept as a near miss
+        (app(abs(app(Var(1), Var(1))), abs(app(Var(2), Var(1)))), app(abs(Var(0x11)), abs(Var(0x21)))), // (λ11)(λ21)
+    ]
+}
+
+/// the result of a call must not depend on what was reduced before on the same thread: look-alike terms reduced back to back
+/// with the same order and limit, then again after an unrelated call
+pub fn history_independence(ctx: &mut Ctx) {
+    for (a, b) in debug_lookalikes() {
+        for (x, y) in [(&a, &b), (&b, &a)] {
+            let (fv, ud) = free_vars(y);
+            for &o in ORDERS.iter() {
+                for l in [0usize, 1, 2] {
+                    for kind in ["reduce", "beta"] {
+                        let mk = |t: &Term| format!("{} {} {} {}", kind, order_name(o), l, s(t));
+                        let (la, lb, lc) = (mk(x), mk(y), mk(&Var(1)));
+                        ctx.op(&la);
+                        let rb = ctx.op(&lb);
+                        ctx.op(&lc);
+                        let rd = ctx.op(&lb);
+                        ctx.nontrivial(&lb);
+                        if rb != rd {
+                            ctx.fail("the result of a reduction depends on which term was reduced before it (same order, same limit)", &[la.clone(), lb.clone(), lc, lb.clone()]);
+                        }
+                        let res = if kind == "reduce" {
+                            parse_reduce(&rb).map(|p| p.1)
+                        } else {
+                            let mut it = rb.split_ascii_whitespace();
+                            codec::dec(&mut it)
+                        };
+                        if let Some(u) = res {
+                            let (fv2, ud2) = free_vars(&u);
+                            if !fv2.is_subset(&fv) || (ud2 && !ud) {
+                                ctx.fail("reduction produced a free variable (or UD) the input does not have", &[la, lb]);
+                            }
+                        }
+                        ctx.count("history_independence_checks");
+                    }
+                }
+            }
+        }
+    }
+}
+
+/// limits far above the length of any run ("practically unlimited": 2^31 … usize::MAX): the count and the result must be
+/// those of a run that never reaches its limit.  A limit or counter kept in fewer bits, or in a signed type, shows here only
+pub fn huge_limit_checks(ctx: &mut Ctx) {
+    let limits: [usize; 10] = [1 << 31, (1 << 32) - 1, 1 << 32, (1 << 32) + 1, (1 << 32) + 2, (1 << 63) - 1, 1 << 63, (1 << 63) + 1,
+        usize::MAX - 1, usize::MAX];
+    let mut terms = named_terms();
+    terms.extend(long_programs());
+    for k in [1usize, 2, 5, 40] {
+        terms.push(app!(k.into_church(), abs(Var(1)), abs(Var(1))));
+    }
+    for _ in 0..(if ctx.thorough { 400 } else { 60 }) {
+        let b = 6 + ctx.rng.below(30);
+        terms.push(random_term(&mut ctx.rng, b, 0, true, 25));
+    }
+    let cap = 400usize;
+    for t in &terms {
+        for &o in ORDERS.iter() {
+            let base = ctx.op(&reduce_op(o, cap, t));
+            let count = base.split_ascii_whitespace().next().and_then(|c| c.parse::<usize>().ok());
+            match count {
+                Some(c) if c < cap => {
+                    for &l in limits.iter() {
+                        let line = reduce_op(o, l, t);
+                        let r = ctx.op(&line);
+                        if c > 0 {
+                            ctx.nontrivial(&line);
+                        }
+                        if r != base {
+                            ctx.fail("a limit far above the length of the run changes the count or the result (the run must be the one that never reaches its limit)", &[line, reduce_op(o, cap, t)]);
+                        }
+                    }
+                    ctx.count("huge_limit_runs");
+                }
+                _ => ctx.count("huge_limit_skipped_long_or_divergent"),
+            }
+        }
+    }
+}
+
 // ------------------------------------------------------------------------------------------ C01
 pub fn c01(ctx: &mut Ctx) {
+    history_independence(ctx);
+    huge_limit_checks(ctx);
     let sz = sizes(ctx, 1);
     let uni = universe(ctx, &sz, true);
     let (steps, cap) = if ctx.thorough { (14, 600) } else { (8, 300) };
@@ -393,6 +491,7 @@ pub fn c02(ctx: &mut Ctx) {
         }
     }
     pairs.extend(deep_substitution_family());
+    pairs.extend(very_deep_substitution_family(usize::MAX));
     for (f, a) in &pairs {
         let line = format!("apply {} {}", s(f), s(a));
         let r = ctx.op(&line);
@@ -429,6 +528,7 @@ pub fn c02(ctx: &mut Ctx) {
 
 // ------------------------------------------------------------------------------------------ C03
 pub fn c03(ctx: &mut Ctx) {
+    huge_limit_checks(ctx);
     let sz = sizes(ctx, 1);
     let uni = universe(ctx, &sz, true);
     let (steps, cap) = if ctx.thorough { (40, 800) } else { (20, 400) };
@@ -563,8 +663,29 @@ pub fn deep_substitution_family() -> Vec<(Term, Term)> {
     out
 }
 
+/// the same idea with the occurrences 254 … 65 537 binders below the removed one (and the argument open, with a binder of its
+/// own): a depth counter narrower than `usize`, or a table/cache indexed by depth, wraps or clamps here and nowhere above
+pub fn very_deep_substitution_family(max_depth: usize) -> Vec<(Term, Term)> {
+    let depths = [254usize, 255, 256, 257, 511, 512, 65535, 65536, 65537];
+    let args: Vec<Term> = vec![Var(1), Var(3), abs(app!(Var(1), Var(2), Var(3)))];
+    let mut out = Vec::new();
+    for &d in depths.iter().filter(|&&d| d <= max_depth) {
+        // λ. (λ^d. x y z 1) x : x the variable of the outer λ, y a free variable of the body, z bound by the first of the d binders
+        let mut e = app!(Var(d + 1), Var(d + 3), Var(d), Var(1));
+        for _ in 0..d {
+            e = abs(e);
+        }
+        let body = app(e, Var(1));
+        for a in &args {
+            out.push((abs(body.clone()), a.clone()));
+        }
+    }
+    out
+}
+
 // ------------------------------------------------------------------------------------------ C04
 pub fn c04(ctx: &mut Ctx) {
+    huge_limit_checks(ctx);
     let sz = sizes(ctx, 1);
     let uni = universe(ctx, &sz, true);
     let (steps, cap, maxsum) = if ctx.thorough { (12, 500, 7) } else { (8, 300, 5) };
@@ -830,6 +951,7 @@ pub fn c05(ctx: &mut Ctx) {
 
 // ------------------------------------------------------------------------------------------ C06
 pub fn c06(ctx: &mut Ctx) {
+    history_independence(ctx);
     let sz = sizes(ctx, 1);
     let uni = universe(ctx, &sz, true);
     let (steps, cap) = if ctx.thorough { (60, 1500) } else { (30, 600) };
@@ -937,7 +1059,7 @@ pub fn c07(ctx: &mut Ctx) {
     } else {
         Sizes { enum_size: 7, enum_free: 1, n_random: 2500, rand_size: 24 }
     };
-    let mut uni = universe(ctx, &sz, false);
+    let mut uni = universe(ctx, &sz, true);
     uni.extend(divergent_family(ctx));
     uni.extend(headform_family());
     uni.extend(long_programs());
@@ -1089,6 +1211,8 @@ fn divergent_family(ctx: &mut Ctx) -> Vec<Term> {
         app(abs(Var(2)), app(om3.clone(), om3.clone())), // (λ.2) (ω₃ ω₃), growing divergence
         app(abs(abs(Var(3))), abs(omega.clone())),       // discards λ.Ω
         app!(abs!(2, app(Var(1), Var(4))), omega.clone(), i.clone()), // (λλ.1 4) Ω I -> 2
+        app!(k.clone(), Var(0), omega.clone()),          // K UD Ω    ->  UD  (UD passed as a bare argument, under a binder)
+        app!(abs!(3, app(Var(3), Var(1))), Var(0), omega.clone(), Var(0)), // (λλλ.3 1) UD Ω UD -> UD UD
     ];
     type C = Box<dyn Fn(Term) -> Term>;
     let contexts: Vec<C> = vec![
@@ -1175,6 +1299,7 @@ fn ref_eager_loops(t: &Term) -> bool {
 
 // ------------------------------------------------------------------------------------------ C08
 pub fn c08(ctx: &mut Ctx) {
+    history_independence(ctx);
     let sz = sizes(ctx, 1);
     let mut uni = universe(ctx, &sz, true);
     // large random terms: the invariant is cheap where an oracle comparison would not be
@@ -1343,6 +1468,26 @@ pub fn c18(ctx: &mut Ctx) {
             uni.push(spoil_supercombinator(&mut ctx.rng, &sc));
             uni.push(sc);
         }
+    }
+    // deep terms: 255 … 65 537 binders on one path (a depth kept in fewer bits than the crate's types wraps here), with a leaf
+    // bound by the innermost / the outermost binder, a leaf that is free by one, and two paths of different depth
+    for n in [255usize, 256, 257, 65535, 65536, 65537] {
+        for leaf in [1usize, n, n + 1] {
+            let mut t = Var(leaf);
+            for _ in 0..n {
+                t = abs(t);
+            }
+            uni.push(t.clone());
+            uni.push(abs(app(abs(Var(1)), t)));
+        }
+        let mut t = app(Var(n), abs(abs(Var(n + 2))));
+        for k in 0..n {
+            t = abs(t);
+            if k == n / 2 {
+                t = app(t, abs(Var(1)));
+            }
+        }
+        uni.push(t);
     }
     for t in &uni {
         ctx.count(bucket(size(t)));
